@@ -76,8 +76,8 @@ Lemma post_ret_with {A} sc (f : range -> A) s o (Q : A -> state -> Prop) :
   Inv s -> o <= off s -> Q (f (mkRange (sc_start sc) (off s))) s -> post Q o (ret_with sc f s).
 Proof using All. intros. unfold ret_with, scope_range. now apply post_ok. Qed.
 
-Tactic Notation "step" uconstr(L) "as" simple_intropattern(a) ident(s1) ident(HI) ident(Hle) simple_intropattern(HQ) :=
-  eapply post_bind; [ eapply L; eauto | lia | intros a s1 HI Hle; cbv beta; intros HQ ].
+Tactic Notation "step" uconstr(L) "as" simple_intropattern(xpat) ident(s1) ident(HI) ident(Hle) simple_intropattern(HQ) :=
+  eapply post_bind; [ eapply L; eauto | lia | intros xpat s1 HI Hle; cbv beta; intros HQ ].
 
 (* ------------------------------------------------------------------ byte classes *)
 
@@ -360,6 +360,447 @@ Proof using All.
   apply post_ret_with; [assumption|lia|]. unfold node_spec. prj.
   split; [reflexivity|]. split; [lia|]. intros lo hi Hlo Hhi.
   unfold wf_balance, rng_in. prj. rewrite Hc, Hq, Hm. cbn [ordered_in]. prj. lia.
+Qed.
+
+(* ------------------------------------------------------------------ ordered_in *)
+
+Lemma ordered_in_lo lo lo' hi rs : ordered_in lo hi rs = true -> lo' <= lo -> ordered_in lo' hi rs = true.
+Proof using All. destruct rs; cbn [ordered_in]; lia. Qed.
+
+Lemma ordered_in_hi lo hi hi' rs : ordered_in lo hi rs = true -> hi <= hi' -> ordered_in lo hi' rs = true.
+Proof using All.
+  revert lo; induction rs as [|r rs IH]; intros lo H Hh; cbn [ordered_in] in *; [lia|].
+  assert (ordered_in (r_end r) hi rs = true) by lia. specialize (IH _ H0 Hh). lia.
+Qed.
+
+Lemma ordered_in_app lo mid hi xs ys :
+  ordered_in lo mid xs = true -> ordered_in mid hi ys = true -> ordered_in lo hi (xs ++ ys) = true.
+Proof using All.
+  revert lo; induction xs as [|r xs IH]; intros lo Hx Hy; cbn [ordered_in app] in *.
+  - apply (ordered_in_lo mid); [assumption|lia].
+  - assert (H1 : ordered_in (r_end r) mid xs = true) by lia. specialize (IH _ H1 Hy). lia.
+Qed.
+
+Lemma ordered_in_bounds lo hi rs : ordered_in lo hi rs = true -> lo <= hi.
+Proof using All.
+  revert lo; induction rs as [|r rs IH]; intros lo H; cbn [ordered_in] in *; [lia|].
+  assert (H1 : ordered_in (r_end r) hi rs = true) by lia. specialize (IH _ H1). lia.
+Qed.
+
+Lemma str_eqb_refl a : str_eqb a a = true.
+Proof using All. now apply str_eqb_eq. Qed.
+
+Lemma extend_kw a b c : a <= b -> b <= c -> extend (mkRange b c) (mkRange a b) = mkRange a c.
+Proof using All.
+  intros Hab Hbc. unfold extend. prj.
+  destruct (Z.ltb_spec a b); destruct (Z.ltb_spec c b); f_equal; lia.
+Qed.
+
+(* ------------------------------------------------------------------ addons *)
+
+Lemma performance_loop_spec : forall n s, Inv s -> len - off s < Z.of_nat n ->
+  post (fun cs s' => forall lo hi, lo <= off s -> off s' <= hi -> ordered_in lo hi cs = true)
+       (off s) (performance_loop E n s).
+Proof using All.
+  induction n as [|n IH]; intros s HI Hn;
+    pose proof (inv_facts s HI) as (H0 & Hc0 & Hle & _); [lia|].
+  cbn [performance_loop]. unfold ifM. destruct (cur_is 44 s).
+  - step rc_spec as ? s1 HI1 L1 (Ho1 & _). { lia. }
+    step rw_plain as ? s2 HI2 L2 _.
+    step parse_commodity_spec as c s3 HI3 L3 (Hc & Hc').
+    step rw_plain as ? s4 HI4 L4 _.
+    step IH as cs s5 HI5 L5 Hcs. { lia. }
+    apply post_ret; [assumption|lia|]. intros lo hi Hlo Hhi.
+    cbn [ordered_in]. rewrite Hc. prj. rewrite (Hcs (off s3) hi) by lia. lia.
+  - apply post_ret; [assumption|lia|]. intros lo hi Hlo Hhi. cbn [ordered_in]. lia.
+Qed.
+
+Definition perf_spec (s : state) (p : performance) (s' : state) : Prop :=
+  pf_range p = mkRange (off s) (off s') /\ off s < off s' /\
+  forall lo hi, lo <= off s -> off s' <= hi -> ordered_in lo hi (pf_targets p) = true.
+
+Lemma parse_performance_spec s : Inv s ->
+  post (perf_spec s) (off s) (parse_performance E s).
+Proof using All.
+  intros HI. pose proof (inv_facts s HI) as (H0 & _).
+  unfold parse_performance. apply post_annot; [prj; lia|].
+  step rc_spec as ? s1 HI1 L1 (Ho1 & _). { lia. }
+  step rw_plain as ? s2 HI2 L2 _.
+  eapply post_bind with (Q1 := fun first s3 =>
+    forall lo mid, lo <= off s2 -> off s3 <= mid -> ordered_in lo mid first = true); [|lia|].
+  { unfold ifM. destruct (negb (cur s2 =? 41)).
+    - step parse_commodity_spec as c s3 HI3 L3 (Hc & Hc').
+      step rw_plain as ? s4 HI4 L4 _.
+      apply post_ret; [assumption|lia|]. intros lo mid Hlo Hmid. cbn [ordered_in]. rewrite Hc. prj. lia.
+    - apply post_ret; [assumption|lia|]. intros lo mid Hlo Hmid. cbn [ordered_in]. lia. }
+  intros first s3 HI3 L3 Hfirst.
+  step performance_loop_spec as more s4 HI4 L4 Hmore. { unfold loop_fuel. pose proof (inv_facts s3 HI3). lia. }
+  step rc_spec as ? s5 HI5 L5 (Ho5 & _). { lia. }
+  apply post_ret_with; [assumption|lia|]. unfold perf_spec. prj.
+  split; [reflexivity|]. split; [lia|]. intros lo hi Hlo Hhi.
+  apply (ordered_in_app lo (off s3) hi); [apply Hfirst; lia | apply Hmore; lia].
+Qed.
+
+Definition accrual_spec (s : state) (a : accrual) (s' : state) : Prop :=
+  ac_range a = mkRange (off s) (off s') /\
+  forall lo hi, lo <= off s -> off s' <= hi ->
+    ordered_in lo hi [ac_interval a; ac_start a; ac_end a; acc_range (ac_account a)] = true.
+
+Lemma parse_accrual_spec s : Inv s ->
+  post (accrual_spec s) (off s) (parse_accrual E s).
+Proof using All.
+  intros HI. pose proof (inv_facts s HI) as (H0 & _).
+  unfold parse_accrual. apply post_annot; [prj; lia|].
+  step read_whitespace1_spec as ? s1 HI1 L1 _.
+  step parse_interval_spec as iv s2 HI2 L2 (Hiv & _).
+  step read_whitespace1_spec as ? s3 HI3 L3 _.
+  step parse_date_spec as st s4 HI4 L4 (Hst & _).
+  step read_whitespace1_spec as ? s5 HI5 L5 _.
+  step parse_date_spec as en s6 HI6 L6 (Hen & _).
+  step read_whitespace1_spec as ? s7 HI7 L7 _.
+  step parse_account_spec as acc s8 HI8 L8 (Ha & _).
+  apply post_ret_with; [assumption|lia|]. unfold accrual_spec. prj.
+  split; [reflexivity|]. intros lo hi Hlo Hhi. cbn [ordered_in]. rewrite Hiv, Hst, Hen, Ha. prj. lia.
+Qed.
+
+Lemma replace_err_spec {A} (m : M A) s o (Q : A -> state -> Prop) :
+  post Q o (m s) -> post Q o (replace_err m s).
+Proof using All.
+  intros Hm. unfold replace_err. destruct (m s) as [a s1|e s1|]; cbn [ScannerProofs.post] in Hm.
+  - exact Hm.
+  - destruct Hm as (Hle & _). apply post_err; [lia|]. apply errs_ok_one; lia.
+  - contradiction.
+Qed.
+
+(* the accumulated addons inside [S, o] *)
+Definition acc_ok (S o : Z) (ad : addons) : Prop :=
+  (is_zero_perf (ad_perf ad) = true \/ wf_perf S o (ad_perf ad) = true) /\
+  (is_zero_accrual (ad_accrual ad) = true \/ wf_accrual S o (ad_accrual ad) = true) /\
+  (is_zero_perf (ad_perf ad) = true \/ is_zero_accrual (ad_accrual ad) = true \/
+   disjoint_b (pf_range (ad_perf ad)) (ac_range (ad_accrual ad)) = true).
+
+Lemma acc_ok_weaken S o o' ad : acc_ok S o ad -> o <= o' -> acc_ok S o' ad.
+Proof using All.
+  unfold acc_ok, wf_perf, wf_accrual, rng_in. intros (H1 & H2 & H3) Ho. repeat split; try assumption; lia.
+Qed.
+
+Lemma addons_loop_spec sc : forall n s ad, Inv s -> 0 <= sc_start sc <= off s ->
+  len - off s < Z.of_nat n -> acc_ok (sc_start sc) (off s) ad ->
+  post (fun a s' => ad_range a = mkRange (sc_start sc) (off s') /\ sc_start sc < off s' /\
+                    acc_ok (sc_start sc) (off s') a)
+       (off s) (addons_loop E sc n ad s).
+Proof using All.
+  induction n as [|n IH]; intros s ad HI Hsc Hn Hacc;
+    pose proof (inv_facts s HI) as (H0 & Hc0 & Hle & _); [lia|].
+  cbn [addons_loop].
+  step ra_spec as r s1 HI1 L1 (Hr & Hlt & _).
+  { repeat constructor; unfold ascii; lia. }
+  { repeat constructor; discriminate. }
+  pose proof (inv_facts s1 HI1) as (_ & Hc1 & Hle1 & _).
+  eapply post_bind with (Q1 := fun ad' s2 => acc_ok (sc_start sc) (off s2) ad'); [|lia|].
+  { destruct Hacc as (Hp & Ha & Hd).
+    destruct (str_eqb (extract E r) kw_performance).
+    - destruct (negb (range_empty (pf_range (ad_perf ad)))) eqn:Hemp.
+      + apply post_err; [lia|]. rewrite Hr. prj. apply errs_ok_one; lia.
+      + step parse_performance_spec as p s2 HI2 L2 (Hpr & Hplt & Hpt).
+        apply post_ret; [assumption|lia|]. unfold acc_ok. prj.
+        assert (Hz : is_zero_perf (ad_perf ad) = true \/ True) by auto.
+        rewrite Hpr, Hr, (extend_kw (off s) (off s1) (off s2)) by lia.
+        split; [right|split].
+        * unfold wf_perf, rng_in. prj. rewrite (Hpt (off s) (off s2)) by lia. lia.
+        * destruct Ha as [Ha|Ha]; [now left|right].
+          revert Ha. unfold wf_accrual, rng_in. lia.
+        * destruct Ha as [Ha|Ha]; [right; now left|right; right].
+          revert Ha. unfold wf_accrual, rng_in, disjoint_b. prj. lia.
+    - destruct (str_eqb (extract E r) kw_accrue).
+      + destruct (negb (range_empty (ac_range (ad_accrual ad)))) eqn:Hemp.
+        * apply post_err; [lia|]. rewrite Hr. prj. apply errs_ok_one; lia.
+        * step parse_accrual_spec as acr s2 HI2 L2 (Har & Hat).
+          apply post_ret; [assumption|lia|]. unfold acc_ok. prj.
+          rewrite Har, Hr, (extend_kw (off s) (off s1) (off s2)) by lia.
+          split; [|split].
+          -- destruct Hp as [Hp|Hp]; [now left|right].
+             revert Hp. unfold wf_perf, rng_in. lia.
+          -- right. unfold wf_accrual, rng_in. prj. rewrite (Hat (off s) (off s2)) by lia. lia.
+          -- destruct Hp as [Hp|Hp]; [now left|right; right].
+             revert Hp. unfold wf_perf, rng_in, disjoint_b. prj. lia.
+      + apply post_ok; [assumption|lia|].
+        apply (acc_ok_weaken _ (off s)); [|lia]. repeat split; assumption. }
+  intros ad' s2 HI2 L2 Hacc2.
+  eapply post_bind with (Q1 := fun _ s3 => True); [apply replace_err_spec; eapply post_weaken; [apply read_rest_spec; assumption|lia|auto]|lia|].
+  intros _ s3 HI3 L3 _.
+  unfold ifM. destruct (negb (cur s3 =? 64)).
+  - apply post_ret_with; [assumption|lia|]. prj. split; [reflexivity|]. split; [lia|].
+    apply (acc_ok_weaken _ (off s2)); [|lia].
+    destruct Hacc2 as (A1 & A2 & A3). unfold acc_ok. prj. auto.
+  - eapply post_weaken; [apply (IH s3 ad' HI3); try lia|lia|auto].
+    apply (acc_ok_weaken _ (off s2)); [assumption|lia].
+Qed.
+
+Definition addons_spec (s : state) (a : addons) (s' : state) : Prop :=
+  ad_range a = mkRange (off s) (off s') /\ off s < off s' /\
+  forall lo hi, lo <= off s -> off s' <= hi -> wf_addons lo hi a = true.
+
+Lemma parse_addons_spec s : Inv s ->
+  post (addons_spec s) (off s) (parse_addons E s).
+Proof using All.
+  intros HI. pose proof (inv_facts s HI) as (H0 & Hc0 & Hle & _).
+  unfold parse_addons. apply post_annot; [prj; lia|].
+  eapply post_weaken; [apply (addons_loop_spec _ (loop_fuel E) s zero_addons HI); prj; unfold loop_fuel; try lia|lia|].
+  - unfold acc_ok. repeat split; left; reflexivity.
+  - intros a s' _ Hle' (Hr & Hlt & (A1 & A2 & A3)). prj. unfold addons_spec.
+    split; [assumption|]. split; [assumption|]. intros lo hi Hlo Hhi.
+    unfold wf_addons. rewrite Hr. unfold rng_in. prj.
+    assert (B1 : is_zero_perf (ad_perf a) || wf_perf (off s) (off s') (ad_perf a) = true) by (destruct A1 as [->| ->]; lia).
+    assert (B2 : is_zero_accrual (ad_accrual a) || wf_accrual (off s) (off s') (ad_accrual a) = true) by (destruct A2 as [->| ->]; lia).
+    assert (B3 : is_zero_perf (ad_perf a) || is_zero_accrual (ad_accrual a) ||
+                 disjoint_b (pf_range (ad_perf a)) (ac_range (ad_accrual a)) = true)
+      by (destruct A3 as [->|[->| ->]]; lia).
+    lia.
+Qed.
+
+(* ------------------------------------------------------------------ directive kinds *)
+
+Lemma parse_include_spec s : Inv s ->
+  post (fun i s' => in_range i = mkRange (off s) (off s') /\ off s < off s' /\
+                    forall lo hi, lo <= off s -> off s' <= hi -> wf_include lo hi i = true)
+       (off s) (parse_include E s).
+Proof using All.
+  intros HI. pose proof (inv_facts s HI) as (H0 & _).
+  unfold parse_include. apply post_annot; [prj; lia|].
+  step read_string_spec as ? s1 HI1 L1 (_ & Ho1 & _). { repeat constructor; unfold ascii; lia. }
+  step read_whitespace1_spec as ? s2 HI2 L2 _.
+  step parse_quoted_string_spec as q s3 HI3 L3 (Hq & Hq2 & Hqc).
+  apply post_ret_with; [assumption|lia|]. prj.
+  split; [reflexivity|]. split; [lia|]. intros lo hi Hlo Hhi.
+  unfold wf_include, wf_quoted, rng_in. prj. rewrite Hq, Hqc. prj. lia.
+Qed.
+
+(* the context of the payload parsers: scope start S, date inside [S, off s] *)
+Lemma parse_open_spec sc date s : Inv s -> 0 <= sc_start sc -> rng_in (sc_start sc) (off s) date = true ->
+  post (fun o s' => op_range o = mkRange (sc_start sc) (off s') /\
+                    wf_open (sc_start sc) (off s') o = true)
+       (off s) (parse_open E sc date s).
+Proof using All.
+  intros HI Hsc Hd. pose proof (inv_facts s HI) as (H0 & _). unfold rng_in in Hd.
+  unfold parse_open. apply post_annot; [prj; lia|].
+  step parse_account_spec as a s1 HI1 L1 (Ha & _).
+  apply post_ret_with; [assumption|lia|]. prj. split; [reflexivity|].
+  unfold wf_open, rng_in. prj. cbn [ordered_in]. rewrite Ha. prj. lia.
+Qed.
+
+Lemma parse_close_spec sc date s : Inv s -> 0 <= sc_start sc -> rng_in (sc_start sc) (off s) date = true ->
+  post (fun o s' => cl_range o = mkRange (sc_start sc) (off s') /\
+                    wf_close (sc_start sc) (off s') o = true)
+       (off s) (parse_close E sc date s).
+Proof using All.
+  intros HI Hsc Hd. pose proof (inv_facts s HI) as (H0 & _). unfold rng_in in Hd.
+  unfold parse_close. apply post_annot; [prj; lia|].
+  step parse_account_spec as a s1 HI1 L1 (Ha & _).
+  apply post_ret_with; [assumption|lia|]. prj. split; [reflexivity|].
+  unfold wf_close, rng_in. prj. cbn [ordered_in]. rewrite Ha. prj. lia.
+Qed.
+
+Definition list_spec {A} (rng : A -> range) (wf : Z -> Z -> A -> bool) (s : state) (l : list A) (s' : state) : Prop :=
+  l <> [] /\ off s < off s' /\
+  forall lo hi, lo <= off s -> off s' <= hi ->
+    ordered_in lo hi (map rng l) = true /\ forallb (wf lo hi) l = true.
+
+Lemma balances_loop_spec : forall n s, Inv s -> len - off s < Z.of_nat n ->
+  post (list_spec bl_range wf_balance s) (off s) (balances_loop E n s).
+Proof using All.
+  induction n as [|n IH]; intros s HI Hn;
+    pose proof (inv_facts s HI) as (H0 & Hc0 & Hle & _); [lia|].
+  cbn [balances_loop].
+  step parse_balance_spec as b s1 HI1 L1 (Hb & Hblt & Hbw).
+  step read_rest_spec as ? s2 HI2 L2 _.
+  unfold ifM. destruct (is_whitespace_or_newline (cur s2) || (cur s2 =? eof)).
+  - apply post_ret; [assumption|lia|]. unfold list_spec.
+    split; [discriminate|]. split; [lia|]. intros lo hi Hlo Hhi.
+    cbn [map ordered_in forallb]. rewrite Hb, (Hbw lo hi) by lia. prj. lia.
+  - step IH as bs s3 HI3 L3 (Hne & Hlt & Hbs). { lia. }
+    apply post_ret; [assumption|lia|]. unfold list_spec.
+    split; [discriminate|]. split; [lia|]. intros lo hi Hlo Hhi.
+    cbn [map ordered_in forallb]. rewrite Hb, (Hbw lo hi) by lia. prj.
+    destruct (Hbs (off s1) hi) as (B1 & _); [lia|lia|].
+    destruct (Hbs lo hi) as (_ & B2); [lia|lia|]. lia.
+Qed.
+
+Lemma bookings_loop_spec : forall n s, Inv s -> len - off s < Z.of_nat n ->
+  post (list_spec bk_range wf_booking s) (off s) (bookings_loop E n s).
+Proof using All.
+  induction n as [|n IH]; intros s HI Hn;
+    pose proof (inv_facts s HI) as (H0 & Hc0 & Hle & _); [lia|].
+  cbn [bookings_loop].
+  step parse_booking_spec as b s1 HI1 L1 (Hb & Hblt & Hbw).
+  step read_rest_spec as ? s2 HI2 L2 _.
+  unfold ifM. destruct (is_whitespace_or_newline (cur s2) || (cur s2 =? eof)).
+  - apply post_ret; [assumption|lia|]. unfold list_spec.
+    split; [discriminate|]. split; [lia|]. intros lo hi Hlo Hhi.
+    cbn [map ordered_in forallb]. rewrite Hb, (Hbw lo hi) by lia. prj. lia.
+  - step IH as bs s3 HI3 L3 (Hne & Hlt & Hbs). { lia. }
+    apply post_ret; [assumption|lia|]. unfold list_spec.
+    split; [discriminate|]. split; [lia|]. intros lo hi Hlo Hhi.
+    cbn [map ordered_in forallb]. rewrite Hb, (Hbw lo hi) by lia. prj.
+    destruct (Hbs (off s1) hi) as (B1 & _); [lia|lia|].
+    destruct (Hbs lo hi) as (_ & B2); [lia|lia|]. lia.
+Qed.
+
+Lemma nonempty_match {A} (l : list A) : l <> [] -> match l with [] => false | _ => true end = true.
+Proof using All. destruct l; congruence. Qed.
+
+Lemma parse_assertion_spec sc date s : Inv s -> 0 <= sc_start sc -> rng_in (sc_start sc) (off s) date = true ->
+  post (fun a s' => as_range a = mkRange (sc_start sc) (off s') /\
+                    wf_assertion (sc_start sc) (off s') a = true)
+       (off s) (parse_assertion E sc date s).
+Proof using All.
+  intros HI Hsc Hd. pose proof (inv_facts s HI) as (H0 & Hc0 & Hle & _). unfold rng_in in Hd.
+  unfold parse_assertion. apply post_annot; [prj; lia|].
+  unfold ifM. destruct (is_newline (cur s)).
+  - step read_rest_spec as ? s1 HI1 L1 _.
+    step balances_loop_spec as bs s2 HI2 L2 (Hne & Hlt & Hbs).
+    { unfold loop_fuel. pose proof (inv_facts s1 HI1). lia. }
+    apply post_ret_with; [assumption|lia|]. prj. split; [reflexivity|].
+    unfold wf_assertion, rng_in. prj. cbn [ordered_in].
+    destruct (Hbs (r_end date) (off s2)) as (B1 & _); [lia|lia|].
+    destruct (Hbs (sc_start sc) (off s2)) as (_ & B2); [lia|lia|].
+    rewrite (nonempty_match bs Hne). lia.
+  - step parse_balance_spec as b s1 HI1 L1 (Hb & Hblt & Hbw).
+    apply post_ret_with; [assumption|lia|]. prj. split; [reflexivity|].
+    unfold wf_assertion, rng_in. prj. cbn [map ordered_in forallb].
+    rewrite Hb, (Hbw (sc_start sc) (off s1)) by lia. prj. lia.
+Qed.
+
+Lemma parse_price_spec sc date s : Inv s -> 0 <= sc_start sc -> rng_in (sc_start sc) (off s) date = true ->
+  post (fun p s' => pr_range p = mkRange (sc_start sc) (off s') /\
+                    wf_price (sc_start sc) (off s') p = true)
+       (off s) (parse_price E sc date s).
+Proof using All.
+  intros HI Hsc Hd. pose proof (inv_facts s HI) as (H0 & _). unfold rng_in in Hd.
+  unfold parse_price.
+  eapply post_bind with (Q1 := fun cp s4 => ordered_in (off s) (off s4) [fst cp; snd cp] = true); [|lia|].
+  { apply post_annot; [prj; lia|].
+    step parse_commodity_spec as c s1 HI1 L1 (Hc & _).
+    step read_whitespace1_spec as ? s2 HI2 L2 _.
+    step parse_decimal_spec as p s3 HI3 L3 (Hp & _).
+    step read_whitespace1_spec as ? s4 HI4 L4 _.
+    apply post_ret; [assumption|lia|]. prj. cbn [ordered_in]. rewrite Hc, Hp. prj. lia. }
+  intros cp s4 HI4 L4 Hcp. cbn [ordered_in] in Hcp.
+  step parse_commodity_spec as tg s5 HI5 L5 (Htg & _).
+  apply post_ret_with; [assumption|lia|]. prj. split; [reflexivity|].
+  unfold wf_price, rng_in. prj. cbn [ordered_in]. rewrite Htg. prj. lia.
+Qed.
+
+Lemma parse_transaction_spec sc date ad s : Inv s -> 0 <= sc_start sc ->
+  ordered_in (sc_start sc) (off s) (addons_ranges ad ++ [date]) = true ->
+  is_zero_addons ad || wf_addons (sc_start sc) (off s) ad = true ->
+  post (fun x s' => tx_range x = mkRange (sc_start sc) (off s') /\
+                    wf_transaction (sc_start sc) (off s') x = true)
+       (off s) (parse_transaction E sc date ad s).
+Proof using All.
+  intros HI Hsc Hpre Had. pose proof (inv_facts s HI) as (H0 & _).
+  pose proof (ordered_in_bounds _ _ _ Hpre) as Hb0.
+  unfold parse_transaction. apply post_annot; [prj; lia|].
+  step parse_quoted_string_spec as q s1 HI1 L1 (Hq & Hq2 & Hqc).
+  step read_rest_spec as ? s2 HI2 L2 _.
+  step bookings_loop_spec as bs s3 HI3 L3 (Hne & Hlt & Hbs).
+  { unfold loop_fuel. pose proof (inv_facts s2 HI2). lia. }
+  apply post_ret_with; [assumption|lia|]. prj. split; [reflexivity|].
+  unfold wf_transaction. prj.
+  destruct (Hbs (off s1) (off s3)) as (B1 & _); [lia|lia|].
+  destruct (Hbs (sc_start sc) (off s3)) as (_ & B2); [lia|lia|].
+  rewrite (nonempty_match bs Hne), B2.
+  assert (C1 : ordered_in (sc_start sc) (off s3)
+                 (addons_ranges ad ++ date :: qs_range q :: map bk_range bs) = true).
+  { replace (addons_ranges ad ++ date :: qs_range q :: map bk_range bs)
+      with ((addons_ranges ad ++ [date]) ++ qs_range q :: map bk_range bs)
+      by (rewrite <- app_assoc; reflexivity).
+    apply (ordered_in_app _ (off s)); [assumption|].
+    cbn [ordered_in]. rewrite Hq. prj. lia. }
+  rewrite C1.
+  assert (C2 : is_zero_addons ad || wf_addons (sc_start sc) (off s3) ad = true).
+  { revert Had. unfold wf_addons, rng_in. lia. }
+  rewrite C2. unfold wf_quoted, rng_in. rewrite Hq, Hqc. prj. lia.
+Qed.
+
+(* ------------------------------------------------------------------ directive *)
+
+Definition directive_spec (s : state) (d : directive) (s' : state) : Prop :=
+  d_range d = mkRange (off s) (off s') /\ off s < off s' /\
+  forall lo hi, lo <= off s -> off s' <= hi -> wf_directive lo hi d = true.
+
+Lemma parse_directive_spec s : Inv s ->
+  post (directive_spec s) (off s) (parse_directive E s).
+Proof using All.
+  intros HI. pose proof (inv_facts s HI) as (H0 & Hc0 & Hle & _).
+  unfold parse_directive. apply post_annot; [prj; lia|].
+  set (sc := new_scope DDir s).
+  assert (Hsc : sc_start sc = off s) by reflexivity.
+  eapply post_bind with (Q1 := fun ad s1 =>
+     ordered_in (off s) (off s1) (addons_ranges ad) = true /\
+     is_zero_addons ad || wf_addons (off s) (off s1) ad = true); [|lia|].
+  { unfold ifM. destruct (cur_is 64 s).
+    - eapply post_weaken; [apply parse_addons_spec; assumption|lia|].
+      intros ad s1 HI1 L1 (Har & Hlt & Hw). rewrite (Hw (off s) (off s1)) by lia.
+      split; [|lia]. unfold addons_ranges. destruct (is_zero_addons ad); cbn [ordered_in]; [lia|].
+      rewrite Har. prj. lia.
+    - apply post_ret; [assumption|lia|]. split; [|reflexivity].
+      unfold addons_ranges. replace (is_zero_addons zero_addons) with true by reflexivity.
+      cbn [ordered_in]. lia. }
+  intros ad s1 HI1 L1 (Hado & Hadw).
+  unfold ifM at 1. destruct (cur_is 105 s1).
+  - step parse_include_spec as i s2 HI2 L2 (Hi & Hilt & Hiw).
+    apply post_ret_with; [assumption|lia|]. unfold directive_spec. prj. rewrite Hsc.
+    split; [reflexivity|]. split; [lia|]. intros lo hi Hlo Hhi.
+    unfold wf_directive, wf_body, rng_in, nonempty_range. prj.
+    rewrite (Hiw (off s) (off s2)) by lia. rewrite Hi. prj. lia.
+  - step parse_date_spec as date s2 HI2 L2 (Hdate & Hdlt).
+    step read_whitespace1_spec as ? s3 HI3 L3 _.
+    assert (Hdr : rng_in (sc_start sc) (off s3) date = true).
+    { unfold rng_in. rewrite Hdate, Hsc. prj. lia. }
+    unfold ifM at 1. destruct (cur_is 34 s3).
+    + step parse_transaction_spec as x s4 HI4 L4 (Hx & Hxw).
+      { rewrite Hsc. apply (ordered_in_app _ (off s1)); [assumption|].
+        cbn [ordered_in]. rewrite Hdate. prj. lia. }
+      { rewrite Hsc. revert Hadw. unfold wf_addons, rng_in. lia. }
+      apply post_ret_with; [assumption|lia|]. unfold directive_spec. prj. rewrite Hsc in *.
+      split; [reflexivity|]. split; [lia|]. intros lo hi Hlo Hhi.
+      unfold wf_directive, wf_body, rng_in, nonempty_range, range_eqb. prj.
+      rewrite Hxw, Hx. prj. lia.
+    + step ra_spec as kw s4 HI4 L4 (Hkw & Hkwlt & Hin).
+      { repeat constructor; unfold ascii; lia. }
+      { repeat constructor; discriminate. }
+      step read_whitespace1_spec as ? s5 HI5 L5 _.
+      assert (Hdr5 : rng_in (sc_start sc) (off s5) date = true).
+      { unfold rng_in. rewrite Hdate, Hsc. prj. lia. }
+      assert (Hex : extract E kw = slice t (off s3) (off s4)) by (rewrite Hkw; reflexivity).
+      destruct (str_eqb (extract E kw) kw_open) eqn:E1; [|
+      destruct (str_eqb (extract E kw) kw_close) eqn:E2; [|
+      destruct (str_eqb (extract E kw) kw_balance) eqn:E3; [|
+      destruct (str_eqb (extract E kw) kw_price) eqn:E4]]].
+      * step parse_open_spec as x s6 HI6 L6 (Hx & Hxw).
+        apply post_ret_with; [assumption|lia|]. unfold directive_spec. prj. rewrite Hsc in *.
+        split; [reflexivity|]. split; [lia|]. intros lo hi Hlo Hhi.
+        unfold wf_directive, wf_body, rng_in, nonempty_range, range_eqb. prj.
+        rewrite Hxw, Hx. prj. lia.
+      * step parse_close_spec as x s6 HI6 L6 (Hx & Hxw).
+        apply post_ret_with; [assumption|lia|]. unfold directive_spec. prj. rewrite Hsc in *.
+        split; [reflexivity|]. split; [lia|]. intros lo hi Hlo Hhi.
+        unfold wf_directive, wf_body, rng_in, nonempty_range, range_eqb. prj.
+        rewrite Hxw, Hx. prj. lia.
+      * step parse_assertion_spec as x s6 HI6 L6 (Hx & Hxw).
+        apply post_ret_with; [assumption|lia|]. unfold directive_spec. prj. rewrite Hsc in *.
+        split; [reflexivity|]. split; [lia|]. intros lo hi Hlo Hhi.
+        unfold wf_directive, wf_body, rng_in, nonempty_range, range_eqb. prj.
+        rewrite Hxw, Hx. prj. lia.
+      * step parse_price_spec as x s6 HI6 L6 (Hx & Hxw).
+        apply post_ret_with; [assumption|lia|]. unfold directive_spec. prj. rewrite Hsc in *.
+        split; [reflexivity|]. split; [lia|]. intros lo hi Hlo Hhi.
+        unfold wf_directive, wf_body, rng_in, nonempty_range, range_eqb. prj.
+        rewrite Hxw, Hx. prj. lia.
+      * exfalso. rewrite Hex in *.
+        destruct Hin as [Hin|[Hin|[Hin|[Hin|[]]]]]; rewrite <- Hin in *;
+          rewrite str_eqb_refl in *; discriminate.
 Qed.
 
 End WithEnv.
